@@ -844,5 +844,309 @@ Section Sim.
         apply ch_sim_app; [exact Hch|constructor; [apply unparsable_sim; assumption|constructor]].
       - constructor; assumption.
     Qed.
+
+    (* -------------------------------------------------------------- Bracketed *)
+    (** one run: the closing bracket found by [resolve_bracket] is one significant token *)
+    Lemma nm_candidates_sub ms t : forall cs, nm_candidates g ms t = ROk cs -> forall c, In c cs -> In c ms.
+    Proof.
+      induction ms as [|m ms IH]; intros cs H c Hc; cbn [nm_candidates] in H.
+      - inversion H; subst. destruct Hc.
+      - inv_bind H. inv_bind H. destruct a as [[[raws tys] al]|]; [|discriminate].
+        destruct (memN (p_ftr t) raws || intersects (p_types t) tys); inversion H; subst.
+        + destruct Hc as [->|Hc]; [left; reflexivity|right; eapply IH; eauto].
+        + right; eapply IH; eauto.
+    Qed.
+    Lemma first_matching_spec2 cs : forall i len terms r c,
+      first_matching rec cs i len terms = ROk (Some (r, c)) ->
+      In c cs /\ rec c i len terms = ROk r /\ has_match r = true.
+    Proof.
+      induction cs as [|c0 cs IH]; intros i len terms r c H; cbn [first_matching] in H; [discriminate|].
+      inv_bind H. destruct (has_match a) eqn:E.
+      - inversion H; subst. split; [left; reflexivity|split; assumption].
+      - apply IH in H. destruct H as (H1 & H2). split; [right; exact H1|exact H2].
+    Qed.
+    Lemma next_match_scan_spec2 n : forall i len ms terms r c,
+      next_match_scan g toks rec n i len ms terms = ROk (Some (r, c)) ->
+      In c ms /\ exists j, rec c j len terms = ROk r /\ has_match r = true.
+    Proof.
+      induction n as [|n IH]; intros i len ms terms r c H; cbn [next_match_scan] in H; [discriminate|].
+      destruct (i <? len); [|discriminate].
+      inv_bind H. inv_bind H. inv_bind H.
+      destruct a1 as [[r0 c0]|].
+      - inversion H; subst. apply first_matching_spec2 in Ha1. destruct Ha1 as (H1 & H2 & H3).
+        split; [eapply nm_candidates_sub; eauto|eauto].
+      - eapply IH; eauto.
+    Qed.
+    Lemma next_match_spec2 len idx ms terms m c :
+      next_match g toks rec len idx ms terms = ROk (m, Some c) ->
+      In c ms /\ exists j, rec c j len terms = ROk m /\ has_match m = true.
+    Proof.
+      unfold next_match. intro H. destruct (len <=? idx); [discriminate|].
+      inv_bind H. inv_bind H. destruct a0 as [[r0 c0]|]; [|discriminate].
+      inversion H; subst. eapply next_match_scan_spec2; eauto.
+    Qed.
+
+    Lemma rb_loop_end fl : forall len opening ti starts ends pers terms nested mi ch r,
+      (forall c, In c (starts ++ ends) -> onetok g c = true) ->
+      rb_loop g toks rec fl len opening ti starts ends pers terms nested mi ch = ROk r ->
+      exists i t, mr_end r = i + 1 /\ tk i = Some t /\ sigb t = true.
+    Proof.
+      induction fl as [|fl IH]; intros len opening ti starts ends pers terms nested mi ch r Hone H;
+        cbn [rb_loop] in H; [discriminate|].
+      inv_bind H. destruct a as [m mt].
+      destruct (negb (has_match m)); [discriminate|].
+      destruct mt as [mt|]; [|discriminate].
+      destruct (mcontains g ends mt).
+      - destruct (mposition g ends mt) as [ci|]; [|discriminate].
+        destruct (ci =? ti); [|discriminate].
+        destruct (nth_bool pers ti) as [pe|]; [|discriminate].
+        apply next_match_spec2 in Ha. destruct Ha as (Hin & j & Hj & Hhm).
+        destruct (Honetok _ _ _ _ _ (Hone _ Hin) Hj Hhm) as (He & t & Ht & Hs).
+        exists j, t. split; [|split; assumption].
+        destruct pe; inversion H; subst.
+        + destruct (wrap_span (MR (mr_start opening) (mr_end m) None
+                                  [(mr_end opening, k_indent g); (mr_start m, k_dedent g)] (ch ++ [m]))
+                              (MKind (k_bracketed g))) as [_ ->]. exact He.
+        + exact He.
+      - destruct (mposition g starts mt) as [ti2|]; [|discriminate].
+        inv_bind H. eapply IH; eauto.
+    Qed.
+
+    Lemma match_bracketed_sim fl self found bs be pers gaps d len len' idx idx' terms :
+      R len len' -> R idx idx' -> TA terms ->
+      (forall sb eb, bs = Some sb -> be = Some eb ->
+         onetok g sb = true /\ onetok g eb = true /\ anch U eb = true) ->
+      res_sim mr_sim (match_bracketed g toks rec fl self found bs be pers gaps d len idx terms)
+                     (match_bracketed g toks' rec' fl self found bs be pers gaps d len' idx' terms).
+    Proof.
+      intros Hl Hi Ht Hst. unfold match_bracketed.
+      destruct (negb found); [reflexivity|].
+      destruct bs as [sb|]; [|reflexivity]. destruct be as [eb|]; [|reflexivity].
+      destruct (Hst sb eb eq_refl eq_refl) as (Hos & Hoe & Hae).
+      eapply res_sim_bind; [apply Hrec; assumption|]. intros sm sm' Hsm.
+      rewrite (has_match_sim _ _ Hsm). destruct (negb (has_match sm)); [apply empty_at_sim; exact Hi|].
+      eapply res_sim_bind_eq; [apply resolve_bracket_sim; assumption|]. intros bm bm' Ebm _ Hbm.
+      pose proof (mr_sim_end _ _ Hbm) as Hbe.
+      rewrite (R_eqb0 _ _ Hbe). destruct (mr_end bm =? 0); [reflexivity|]. cbn [bind].
+      (* the position of the closing bracket *)
+      assert (He0 : R (mr_end bm - 1) (mr_end bm' - 1)).
+      { unfold resolve_bracket in Ebm. destruct (mposition g [sb] sb); [|discriminate].
+        apply rb_loop_end in Ebm.
+        2:{ intros c [<-|[<-|[]]]; assumption. }
+        destruct Ebm as (i & t & Hei & Hti & Hsi).
+        destruct (R_bwd _ _ Hbe) as [H0 _|t0 _ _ _ _ _ Hn|q q' b Hr _ _ _ _ _ _]; [lia|exact Hn|].
+        destruct (grun_last g toks _ _ Hr) as (t1 & Et1 & Hok1).
+        replace (mr_end bm - 1) with i in Et1 by lia. rewrite Hti in Et1. inversion Et1; subst t1.
+        destruct Hok1 as [Hg _]. unfold gapb in Hg. rewrite Hsi in Hg. discriminate. }
+      pose proof (mr_sim_end _ _ Hsm) as Hse.
+      eapply (res_sim_bind R).
+      { destruct gaps; [exact (skip_fwd_sim len len' len len' Hl Hl _ _ _ eq_refl Hse)|exact Hse]. }
+      intros i1 i1' Hi1.
+      eapply (res_sim_bind R).
+      { destruct gaps; [exact (skip_back_sim len len' _ _ Hl Hi1 _ _ _ eq_refl He0)|exact He0]. }
+      intros e1 e1' He1. rcmp. destruct (len <? e1); [reflexivity|]. cbn [bind].
+      eapply res_sim_bind.
+      { apply match_sequence_sim; try assumption. apply deeper_anch; [|exact Ht].
+        unfold TA. cbn. rewrite Hae. reflexivity. }
+      intros cm cm' Hcm. pose proof (mr_sim_end _ _ Hcm) as Hce. rcmp.
+      destruct (negb (mr_end cm =? e1) && pmode_eqb (sq_mode d) Strict); [apply empty_at_sim; exact Hi1|].
+      destruct (negb gaps && (mr_end cm =? mr_end bm - 1)); [reflexivity|].
+      rewrite (mr_sim_matched _ _ Hbm), (mr_sim_matched _ _ Hcm).
+      constructor; [apply mr_sim_start; exact Hbm|exact Hbe|apply mr_sim_ins; exact Hbm|].
+      destruct (is_some (mr_matched cm)).
+      - apply ch_sim_app; [apply mr_sim_ch; exact Hbm|constructor; [exact Hcm|constructor]].
+      - apply ch_sim_app; [apply mr_sim_ch; exact Hbm|apply mr_sim_ch; exact Hcm].
+    Qed.
+
+    (* -------------------------------------------------------------- AnyNumberOf *)
+    Lemma parse_mode_result_sim len len' cur cur' mx mx' mode : R len len' -> mr_sim cur cur' -> R mx mx' ->
+      res_sim mr_sim (parse_mode_result g toks len cur mx mode) (parse_mode_result g toks' len' cur' mx' mode).
+    Proof.
+      intros Hl Hc Hm. unfold parse_mode_result. destruct (pmode_eqb mode Strict); [exact Hc|].
+      pose proof (mr_sim_end _ _ Hc) as He. rcmp.
+      destruct (mr_end cur =? mx); [exact Hc|].
+      eapply res_sim_bind; [apply all_noncode_sim; assumption|]. intros nc nc' <-.
+      destruct nc; [exact Hc|].
+      eapply res_sim_bind; [exact (skip_fwd_sim len len' len len' Hl Hl _ _ _ eq_refl He)|]. intros t t' Htt.
+      apply append_sim; [exact Hc|apply unparsable_sim; assumption].
+    Qed.
+
+    Lemma any_loop_sim k : forall d len len' idx idx' mx mx' terms nm cs mi mi' wi wi' matched matched',
+      R len len' -> R idx idx' -> R mx mx' -> TA terms -> R mi mi' -> R wi wi' -> mr_sim matched matched' ->
+      all_anch U (an_elems d) = true -> all_anch U (an_terms d) = true ->
+      res_sim mr_sim (any_loop g toks rec k d len idx mx terms nm cs mi wi matched)
+                     (any_loop g toks' rec' k d len' idx' mx' terms nm cs mi' wi' matched').
+    Proof.
+      induction k as [|k IH]; intros d len len' idx idx' mx mx' terms nm cs mi mi' wi wi' matched matched'
+        Hl Hi Hx Ht Hmi Hwi Hmt Hae Hat; cbn [any_loop]; [exact I|]. rcmp.
+      destruct (((an_min d <=? nm) && (mx <=? mi)) || opt_le (an_max d) nm);
+        [apply parse_mode_result_sim; assumption|].
+      destruct (mx <=? mi); [apply empty_at_sim; exact Hi|].
+      eapply res_sim_bind.
+      { apply longest_match_sim; try assumption. apply deeper_anch; assumption. }
+      intros [m mo] [m' mo'] [Hm Hmo]. cbn in Hm, Hmo. subst mo'.
+      rewrite (has_match_sim _ _ Hm). destruct (negb (has_match m)).
+      - apply parse_mode_result_sim; try assumption.
+        destruct (nm <? an_min d); [apply empty_at_sim; exact Hi|exact Hmt].
+      - destruct mo as [o|]; [|reflexivity].
+        destruct (ckey_of g o) as [ck| | |]; cbn [bind]; try (cbn; auto; fail).
+        destruct (bump ck cs) as [cs2 cnt].
+        destruct (match cnt with Some c => opt_lt (an_max_per d) c | None => false end);
+          [apply parse_mode_result_sim; assumption|].
+        pose proof (append_sim _ _ _ _ Hmt Hm) as Hap. pose proof (mr_sim_end _ _ Hap) as Hape.
+        eapply (res_sim_bind R).
+        { destruct (an_gaps d); [exact (skip_fwd_sim len len' len len' Hl Hl _ _ _ eq_refl Hape)|exact Hape]. }
+        intros w w' Hw. apply IH; assumption.
+    Qed.
+
+    Lemma match_anynumberof_sim fl d len len' idx idx' terms : R len len' -> R idx idx' -> TA terms ->
+      all_anch U (an_elems d) = true -> all_anch U (an_terms d) = true ->
+      res_sim mr_sim (match_anynumberof g toks rec fl d len idx terms) (match_anynumberof g toks' rec' fl d len' idx' terms).
+    Proof.
+      intros Hl Hi Ht Hae Hat. unfold match_anynumberof.
+      eapply (res_sim_bind eq).
+      { destruct (an_exclude d) as [ex|]; [|reflexivity].
+        eapply res_sim_bind; [apply Hrec; assumption|]. intros m m' Hm. cbn. rewrite (has_match_sim _ _ Hm). reflexivity. }
+      intros ex ex' <-. destruct ex; [apply empty_at_sim; exact Hi|].
+      destruct (init_counters g (an_elems d)) as [cs| | |]; cbn [bind]; try (cbn; auto; fail).
+      eapply (res_sim_bind R).
+      { destruct (pmode_eqb (an_mode d) Greedy); [apply trim_to_terminator_sim; assumption|exact Hl]. }
+      intros mx mx' Hmx. rcmp. destruct (len <? mx); [reflexivity|]. cbn [bind].
+      apply any_loop_sim; try assumption. apply empty_at_sim; exact Hi.
+    Qed.
+
+    (* -------------------------------------------------------------- Delimited *)
+    Lemma delim_finish_sim tr mn idx idx' sk dm dm' dl wm wm' : R idx idx' -> orel mr_sim dm dm' -> mr_sim wm wm' ->
+      res_sim mr_sim (delim_finish tr mn idx sk dm dl wm) (delim_finish tr mn idx' sk dm' dl wm').
+    Proof.
+      intros Hi Hd Hw. unfold delim_finish.
+      destruct dm as [x|], dm' as [x'|]; try contradiction.
+      - destruct (tr && negb sk).
+        + destruct (dl + 1 <? mn); [apply empty_at_sim; exact Hi|apply append_sim; assumption].
+        + destruct (dl <? mn); [apply empty_at_sim; exact Hi|exact Hw].
+      - destruct (dl <? mn); [apply empty_at_sim; exact Hi|exact Hw].
+    Qed.
+
+    Lemma delim_loop_sim k : forall d delim tr mn len len' idx idx' terms tms dl sk w w' wm wm' dm dm',
+      R len len' -> R idx idx' -> TA terms -> R w w' -> mr_sim wm wm' -> orel mr_sim dm dm' ->
+      all_anch U tms = true -> all_anch U (an_elems d) = true -> anch U delim = true ->
+      res_sim mr_sim (delim_loop g toks rec k d delim tr mn len idx terms tms dl sk w wm dm)
+                     (delim_loop g toks' rec' k d delim tr mn len' idx' terms tms dl sk w' wm' dm').
+    Proof.
+      induction k as [|k IH]; intros d delim tr mn len len' idx idx' terms tms dl sk w w' wm wm' dm dm'
+        Hl Hi Ht Hw Hwm Hdm Htm Hae Had; cbn [delim_loop]; [exact I|].
+      eapply (res_sim_bind R).
+      { rcmp. destruct (an_gaps d && (idx <? w)); [exact (skip_fwd_sim len len' len len' Hl Hl _ _ _ eq_refl Hw)|exact Hw]. }
+      intros w2 w2' Hw2. rcmp.
+      destruct (len <=? w2); [apply delim_finish_sim; assumption|].
+      eapply res_sim_bind; [apply longest_match_sim; assumption|].
+      intros [tm tmo] [tm' tmo'] [Htm2 _]. cbn in Htm2.
+      rewrite (has_match_sim _ _ Htm2). destruct (has_match tm); [apply delim_finish_sim; assumption|].
+      eapply res_sim_bind.
+      { apply longest_match_sim; try assumption.
+        - apply deeper_anch; [|exact Ht]. destruct sk; unfold TA; cbn; [reflexivity|rewrite Had; reflexivity].
+        - destruct sk; [cbn; rewrite Had; reflexivity|exact Hae]. }
+      intros [m mo] [m' mo'] [Hm _]. cbn in Hm.
+      rewrite (has_match_sim _ _ Hm). destruct (negb (has_match m)); [apply delim_finish_sim; assumption|].
+      pose proof (mr_sim_end _ _ Hm) as Hme.
+      destruct sk.
+      - apply IH; try assumption.
+      - destruct dm as [x|], dm' as [x'|]; try contradiction.
+        + apply IH; try assumption. apply append_sim; [apply append_sim; assumption|exact Hm].
+        + apply IH; try assumption. apply append_sim; assumption.
+    Qed.
+
+    Lemma match_delimited_sim fl d delim tr mn len len' idx idx' terms : R len len' -> R idx idx' -> TA terms ->
+      all_anch U (an_elems d) = true -> all_anch U (an_terms d) = true -> anch U delim = true ->
+      res_sim mr_sim (match_delimited g toks rec fl d delim tr mn len idx terms)
+                     (match_delimited g toks' rec' fl d delim tr mn len' idx' terms).
+    Proof.
+      intros Hl Hi Ht Hae Hat Had. unfold match_delimited.
+      apply delim_loop_sim; try assumption; [apply empty_at_sim; exact Hi|exact I|].
+      rewrite !all_anch_app. rewrite Hat. rewrite (all_anch_filter _ _ Ht). cbn [andb].
+      destruct (an_gaps d); [reflexivity|]. cbn. rewrite (static_noncode g U Hstatic). reflexivity.
+    Qed.
+
+    (* -------------------------------------------------------------- one node *)
+    Lemma match_node_body_sim fl n idx idx' len len' terms : R idx idx' -> R len len' -> TA terms ->
+      res_sim mr_sim (match_node_body g toks rx rec fl n idx len terms)
+                     (match_node_body g toks' rx' rec' fl n idx' len' terms).
+    Proof.
+      intros Hi Hl Ht. unfold match_node_body, info.
+      destruct (get (g_nodes g) n) as [i|] eqn:Ei; cbn [bind]; [|reflexivity].
+      destruct (static_node g U n i Hstatic Ei) as [Hok _]. unfold node_ok in Hok.
+      assert (Hkf : forall t, okgap g t -> kind_free_for t i = true)
+        by (intros t Hk; exact (proj2 (okgap_info g t n i Hk Ei))).
+      unfold kind_free_for in Hkf.
+      destruct (n_node i) eqn:En.
+      - (* GRef *)
+        destruct target as [t|]; [|reflexivity].
+        assert (Ht2 : TA (deeper g reset terms0 terms)) by (apply deeper_anch; assumption).
+        eapply (res_sim_bind eq).
+        { destruct exclude as [e|]; [|reflexivity].
+          pose proof (Hrec e idx idx' len len' _ Hi Hl Ht2) as He.
+          destruct (rec e idx len (deeper g reset terms0 terms)), (rec' e idx' len' (deeper g reset terms0 terms));
+            cbn in He |- *; try contradiction; auto.
+          rewrite (has_match_sim _ _ He). reflexivity. }
+        intros ex ex' <-. destruct ex; [apply empty_at_sim; exact Hi|apply Hrec; assumption].
+      - apply match_sequence_sim; assumption.
+      - apply match_bracketed_sim; try assumption.
+        intros sb eb -> ->. apply andb_true_iff in Hok as [Hok H3]. apply andb_true_iff in Hok as [H1 H2]. auto.
+      - apply andb_true_iff in Hok as [H1 H2]. apply match_anynumberof_sim; assumption.
+      - apply andb_true_iff in Hok as [Hok H3]. apply andb_true_iff in Hok as [H1 H2].
+        apply match_delimited_sim; assumption.
+      - (* GNodeM *)
+        rcmp. destruct (len <=? idx); [apply empty_at_sim; exact Hi|].
+        eapply res_sim_bind; [apply (tok_sim len len' idx idx' Hl Hi)|].
+        intros t t' [(-> & Hs & Hn)|(Hk & Hk')].
+        + destruct (p_kind t =? kind); [apply from_span_sim; assumption|].
+          eapply res_sim_bind; [apply Hrec; assumption|]. intros m m' Hm. apply wrap_sim; exact Hm.
+        + pose proof (Hkf _ Hk) as E1. pose proof (Hkf _ Hk') as E2. apply negb_true_iff in E1, E2. rewrite E1, E2.
+          eapply res_sim_bind; [apply Hrec; assumption|]. intros m m' Hm. apply wrap_sim; exact Hm.
+      - (* GString *)
+        eapply res_sim_bind; [apply (tok_sim len len' idx idx' Hl Hi)|].
+        intros t t' [(-> & Hs & Hn)|(Hk & Hk')].
+        + destruct (p_code t && (p_upper t =? upper)); [apply one_token_sim; assumption|apply empty_at_sim; exact Hi].
+        + rewrite (okgap_code g t Hk), (okgap_code g t' Hk'). apply empty_at_sim; exact Hi.
+      - (* GMulti *)
+        eapply res_sim_bind; [apply (tok_sim len len' idx idx' Hl Hi)|].
+        intros t t' [(-> & Hs & Hn)|(Hk & Hk')].
+        + destruct (p_code t && memN (p_upper t) uppers); [apply one_token_sim; assumption|apply empty_at_sim; exact Hi].
+        + rewrite (okgap_code g t Hk), (okgap_code g t' Hk'). apply empty_at_sim; exact Hi.
+      - (* GTyped *)
+        eapply res_sim_bind; [apply (tok_sim len len' idx idx' Hl Hi)|].
+        intros t t' [(-> & Hs & Hn)|(Hk & Hk')].
+        + destruct (p_kind t =? template); [apply one_token_sim; assumption|apply empty_at_sim; exact Hi].
+        + pose proof (Hkf _ Hk) as E1. pose proof (Hkf _ Hk') as E2. apply negb_true_iff in E1, E2. rewrite E1, E2.
+          apply empty_at_sim; exact Hi.
+      - (* GRegex *)
+        change (existsb (fun p => (fst p =? rid) && (snd p =? idx)) rx) with (rxhit rid idx rx).
+        change (existsb (fun p => (fst p =? rid) && (snd p =? idx')) rx') with (rxhit rid idx' rx').
+        destruct (R_fwd _ _ Hi) as [En0 En0'|t Et Et' Hs Hn|q q' Hr Hr' Hq Hno Hno'].
+        + rewrite (tok_none toks len idx En0), (tok_none toks' len' idx' En0'). reflexivity.
+        + unfold tok. rcmp. rewrite Et, Et'. destruct (idx <? len); [|reflexivity]. cbn [bind].
+          rewrite <- (rx_sig rid idx idx' t Hi Et Et' Hs).
+          destruct (rxhit rid idx rx); [apply one_token_sim; assumption|apply empty_at_sim; exact Hi].
+        + destruct (grun_first g toks _ _ Hr) as (t & Et & Hk). destruct (grun_first g toks' _ _ Hr') as (t' & Et' & Hk').
+          unfold tok. rcmp. rewrite Et, Et'. destruct (idx <? len); [|reflexivity]. cbn [bind].
+          rewrite (rx_gap rid idx t Et (proj1 Hk)), (rx_gap' rid idx' t' Et' (proj1 Hk')).
+          apply empty_at_sim; exact Hi.
+      - reflexivity.
+      - destruct enabled; [|apply empty_at_sim; exact Hi].
+        constructor; try assumption; [|constructor]. constructor; [split; [exact Hi|reflexivity]|constructor].
+      - (* GAnything *)
+        destruct (is_empty terms0 && is_empty terms); [apply from_span_sim; assumption|].
+        apply greedy_match_sim; assumption.
+      - apply empty_at_sim; exact Hi.
+      - (* GNonCode *)
+        eapply res_sim_bind; [exact (ncs_sim len len' Hl _ idx idx' eq_refl Hi)|].
+        intros [j|] [j'|] Hj; try contradiction; [|apply empty_at_sim; exact Hi].
+        cbn in Hj. rcmp. destruct (idx <? j); [apply from_span_sim; assumption|apply empty_at_sim; exact Hi].
+      - (* GBracketSeg *)
+        eapply res_sim_bind; [apply (tok_sim len len' idx idx' Hl Hi)|].
+        intros t t' [(-> & Hs & Hn)|(Hk & Hk')].
+        + destruct (p_kind t =? k_bracketed g); [apply from_span_sim; assumption|apply empty_at_sim; exact Hi].
+        + rewrite (okgap_bracketed g t Hk), (okgap_bracketed g t' Hk'). apply empty_at_sim; exact Hi.
+    Qed.
   End WithRec.
 End Sim.
